@@ -311,8 +311,8 @@ theorem Held.topOut {s : St} {t : Nat} (h : Held s t) (o : Out) : Inv (topOut s 
   | raise e => exact h.kill (by simp)
   | yield y => exact h.doYield y
 
-theorem Held.subOut {s : St} {t k p : Nat} (h : Held s t) (hk : kdL s.tasks t = some (.sub k p)) (pc : Nat) (o : Out) :
-    Inv (subOut s t p pc o) := by
+theorem Held.subOut {fx : Bool} {s : St} {t k p : Nat} (h : Held s t) (hk : kdL s.tasks t = some (.sub k p)) (pc : Nat) (o : Out) :
+    Inv (subOut fx s t p pc o) := by
   have fin : ∀ (f : Task → Task), (∀ k, (f k).st = k.st) → (∀ k, (f k).kind = k.kind) →
       Inv (Pox.Recoco.finishSub (setTask s p f) t p) := by
     intro f h1 h2
@@ -387,7 +387,7 @@ def PreOK (t : Nat) : ExecPre × St → Prop
   | (.abort, s1) => Inv s1
   | (_, s1) => Held s1 t
 
-theorem Held.execPre {s : St} {t : Nat} (h : Held s t) (tk : Task) : PreOK t (execPre s t tk) := by
+theorem Held.execPre (cfg : Cfg) {s : St} {t : Nat} (h : Held s t) (tk : Task) : PreOK t (execPre cfg s t tk) := by
   unfold Pox.Recoco.execPre
   simp only []
   repeat' split
@@ -418,7 +418,7 @@ theorem Inv.cycleExec (cfg : Cfg) {s : St} (h : Inv s) : Inv (cycleExec cfg s) :
     split
     · held h0.block
     · rename_i tk htk
-      have hp := h0.execPre tk
+      have hp := h0.execPre cfg tk
       split
       · rename_i s1 he; rw [he] at hp; exact hp
       · rename_i e s1 he; rw [he] at hp; exact Held.kill hp (by simp)
@@ -969,7 +969,7 @@ theorem genStep_yield_lt {n : Nat} {prog : List Y} {pc : Nat} {r : Recv} {y : Y}
   · exact key _ rfl h
 
 
-theorem POx.execPre {cfg ex} {s : St} (h : POx cfg ex s) (t : Nat) (tk : Task) : POx cfg ex (execPre s t tk).2 := by
+theorem POx.execPre {cfg ex} {s : St} (h : POx cfg ex s) (t : Nat) (tk : Task) : POx cfg ex (execPre cfg s t tk).2 := by
   unfold Pox.Recoco.execPre
   simp only []
   repeat' split
@@ -993,9 +993,9 @@ theorem POx.topOut {cfg} {s : St} {t k : Nat} {prog : List Y} (h : POx cfg (some
     rw [hk] at hp; cases hp
     have := genStep_yield_lt hg; omega
 
-theorem POx.subOut {cfg} {s : St} {t k p : Nat} {prog : List Y} (h : POx cfg (some t) s) (c : Kind × Nat × Status)
+theorem POx.subOut {cfg} {fx : Bool} {s : St} {t k p : Nat} {prog : List Y} (h : POx cfg (some t) s) (c : Kind × Nat × Status)
     (ht : (s.tasks.map ctl)[t]? = some c) (hk : progOf cfg c.1 = some prog) (pc : Nat) (hpc : c.2.1 = pc + 1) (r : Recv) :
-    POx cfg none (subOut s t p pc (genStep k prog pc r)) := by
+    POx cfg none (subOut fx s t p pc (genStep k prog pc r)) := by
   have fin : ∀ (f : Task → Task), (∀ k, (f k).kind = k.kind ∧ (f k).pc = k.pc ∧ (f k).st = k.st) →
       POx cfg none (Pox.Recoco.finishSub (setTask s p f) t p) := by
     intro f hf
@@ -1079,7 +1079,7 @@ theorem PO.resumeGen {cfg : Cfg} {s : St} {t : Nat} {tk : Task} (h : PO cfg s) (
     simp only [hkind, progOf] at hp; cases hp
 
 
-theorem execPre_ctl (s : St) (t : Nat) (tk : Task) : (execPre s t tk).2.tasks.map ctl = s.tasks.map ctl := by
+theorem execPre_ctl (cfg : Cfg) (s : St) (t : Nat) (tk : Task) : (execPre cfg s t tk).2.tasks.map ctl = s.tasks.map ctl := by
   unfold Pox.Recoco.execPre
   simp only []
   repeat' split
@@ -1101,7 +1101,7 @@ theorem PO.cycleExec {cfg : Cfg} {s : St} (hi : Inv s) (h : PO cfg s) : PO cfg (
         have htk' : s.tasks[t]? = some tk := htk
         rw [htk'] at this; simpa using this
       have hp := h0.execPre t tk
-      have hc := execPre_ctl { s with running := none } t tk
+      have hc := execPre_ctl cfg { s with running := none } t tk
       split
       · rename_i s1 he; rw [he] at hp; exact hp
       · rename_i e s1 he; rw [he] at hp
@@ -1370,8 +1370,6 @@ def ents (s : St) : List HubEntry := s.incoming ++ s.hub
 
 def NEx (hd : List Nat) (s : St) : Prop :=
   NEA hd (ents s) s.ready s.now (wkL s.tasks) (ptL s.tasks) (stL s.tasks) ∧ ∀ ev ∈ s.trace, evOK ev
-
-def NE (s : St) : Prop := NEx s.running.toList s
 
 theorem ents_tids (s : St) : (ents s).map (·.tid) = incTids s ++ hubTids s := by simp [ents, incTids, hubTids]
 
@@ -1846,5 +1844,814 @@ theorem NEx.idleStep (cfg : Cfg) {s : St} (h : NEx [] s) (hi : Inv s) : NEx [] (
   split
   · exact h.hubSelect cfg hi
   · exact h
+
+/-! ### the cycle side -/
+
+theorem NEA.congr' {hd ents rdy now wk wk' pt pt' st st'} (h : NEA hd ents rdy now wk pt st)
+    (hwk : ∀ u, wk' u = wk u) (hpt : ∀ u, pt' u ↔ pt u) (hst : ∀ u, st' u = st u) : NEA hd ents rdy now wk' pt' st' := by
+  have e1 : wk' = wk := funext hwk
+  have e2 : pt' = pt := funext (fun u => propext (hpt u))
+  have e3 : st' = st := funext hst
+  rw [e1, e2, e3]; exact h
+
+theorem Held.not_ents {s : St} {t : Nat} (h : Held s t) : t ∉ (ents s).map (·.tid) := by
+  rw [ents_tids]
+  exact fun hm => (List.nodup_cons.mp h.2.nodup).1 (List.mem_append_right _ hm)
+
+theorem Held.get {s : St} {t : Nat} (h : Held s t) : ∃ k, s.tasks[t]? = some k := stL_some h.live
+
+theorem NEx.toReady {s : St} {t : Nat} (h : NEx [t] s) (first : Bool) :
+    NEx [] { s with ready := if first then t :: s.ready else s.ready ++ [t] } := by
+  refine ⟨h.1.mono (fun _ h' => h') ?_ ?_ (Nat.le_refl _) (fun _ h' => h') (fun _ _ h' => h'), h.2⟩
+  · intro u hu; cases first <;> simp [ents] at hu ⊢ <;> grind
+  · intro u hu; left; cases first <;> simp [ents] at hu ⊢ <;> grind
+
+theorem NEx.blockT {s : St} {t : Nat} (h : NEx [t] s) (hw : wkL s.tasks t = none) : NEx [] s := by
+  refine ⟨h.1.mono (fun _ h' => h') (fun u hu => List.mem_append_right _ hu) ?_ (Nat.le_refl _) (fun _ h' => h') (fun _ _ h' => h'), h.2⟩
+  intro u hu
+  simp only [List.mem_append, List.mem_singleton, List.nil_append] at hu ⊢
+  rcases hu with rfl | h1
+  · exact .inr (.inr hw)
+  · exact .inl h1
+
+theorem NEx.kill {s : St} {t : Nat} (h : NEx [t] s) (hh : Held s t) {x : Status} (hx : x ≠ .live) : NEx [] (setStatus s t x) := by
+  have hne : stL s.tasks t ≠ none := by rw [hh.live]; simp
+  have hst := stL_setStatus (l := s.tasks) (t := t) (x := x) hne
+  refine ⟨?_, h.2⟩
+  simp only [setStatus, ents, setTask_incoming, setTask_hub, setTask_ready, setTask_now, setTask_tasks, wkL_modify_keep,
+    ptL_modify_keep, and_self, implies_true]
+  refine h.1.mono (fun _ h' => h') (fun u hu => List.mem_append_right _ hu) ?_ (Nat.le_refl _) ?_ (fun _ _ h' => h')
+  · intro u hu
+    simp only [List.mem_append, List.mem_singleton, List.nil_append] at hu ⊢
+    rcases hu with rfl | h1
+    · exact .inr (.inl (by rw [hst]; simpa using hx))
+    · exact .inl h1
+  · intro u hu
+    rw [hst] at hu
+    split at hu
+    · simp at hu; exact absurd hu hx
+    · exact hu
+
+theorem NEx.register {s : St} {t : Nat} (h : NEx [t] s) (hh : Held s t) (rl wl xl : List Nat) (tto : Option Nat) :
+    NEx [] (registerSelect s t rl wl xl tto) := by
+  obtain ⟨k, hk⟩ := hh.get
+  refine ⟨?_, h.2⟩
+  simp only [registerSelect, ents, setTask_incoming, setTask_hub, setTask_ready, setTask_now, setTask_tasks, stL_modify,
+    implies_true]
+  have := NEA.register (t := t) (wk' := wkL (s.tasks.modify t (fun k => { k with wake := tto.map (fun w => (w, (HubEntry.mk t rl wl xl tto).hasFds)) })))
+    (pt' := ptL (s.tasks.modify t (fun k => { k with wake := tto.map (fun w => (w, (HubEntry.mk t rl wl xl tto).hasFds)) })))
+    ⟨t, rl, wl, xl, tto⟩ h.1 rfl hh.not_ents hh.not_ready (fun u hu => wkL_modify_ne hu)
+    (by rw [wkL_modify_self hk]) (fun u hu => ptL_modify_ne hu)
+  refine this.of_mem ?_
+  intro e; simp only [ents, List.mem_append, List.mem_singleton]; grind
+
+/-- the held task's `rf`/`re`/`rv` change in a way that cannot turn a non-timeout resume into a timeout resume -/
+theorem NEx.modPt {s : St} {t : Nat} (h : NEx [t] s) (f : Task → Task) (h1 : ∀ k, (f k).wake = k.wake) (h2 : ∀ k, (f k).st = k.st)
+    (h3 : ∀ k, plainTimeout (f k) → plainTimeout k) : NEx [t] (setTask s t f) := by
+  refine ⟨?_, h.2⟩
+  simp only [ents, setTask_incoming, setTask_hub, setTask_ready, setTask_now, setTask_tasks, wkL_modify_keep h1, stL_modify h2]
+  refine h.1.mono (fun _ h' => h') (fun _ h' => h') (fun _ h' => .inl h') (Nat.le_refl _) (fun _ h' => h') ?_
+  intro u _ hp
+  by_cases e : u = t
+  · subst e
+    obtain ⟨k, hk, hpk⟩ := hp
+    simp only [List.getElem?_modify] at hk
+    cases hs : s.tasks[u]? with
+    | none => simp [hs] at hk
+    | some k0 => simp [hs] at hk; subst hk; exact ⟨k0, hs, h3 k0 hpk⟩
+  · exact (ptL_modify_ne e).mp hp
+
+/-- the held task's wake time is (re)set to a time that has already passed, or cleared -/
+theorem NEx.setWake {s : St} {t : Nat} (h : NEx [t] s) (hh : Held s t) (f : Task → Task) (h2 : ∀ k, (f k).st = k.st)
+    (h3 : ∀ k, (f k).wake = none ∨ ∃ w fds, (f k).wake = some (w, fds) ∧ w ≤ s.now) : NEx [t] (setTask s t f) := by
+  obtain ⟨k, hk⟩ := hh.get
+  refine ⟨?_, h.2⟩
+  simp only [ents, setTask_incoming, setTask_hub, setTask_ready, setTask_now, setTask_tasks, stL_modify h2]
+  have := NEA.setWk (t := t) (wk' := wkL (s.tasks.modify t f)) h.1 hh.not_ents (fun u hu => wkL_modify_ne hu)
+    (fun _ w fds hw _ => by
+      rw [wkL_modify_self hk] at hw
+      rcases h3 k with h' | ⟨w', fds', h', hle⟩
+      · rw [h'] at hw; cases hw
+      · rw [h'] at hw; cases hw; exact hle)
+    (fun hn => absurd (List.mem_append_left _ List.mem_cons_self) hn)
+  -- `pt` may change at `t` only, and there the ready clause has just been re-established without using it
+  refine ⟨this.entry, ?_, this.blocked⟩
+  intro u hu w fds hw hc
+  by_cases e : u = t
+  · subst e
+    rw [wkL_modify_self hk] at hw
+    rcases h3 k with h' | ⟨w', fds', h', hle⟩
+    · rw [h'] at hw; cases hw
+    · rw [h'] at hw; cases hw; exact hle
+  · exact this.ready u hu w fds hw (hc.imp id (ptL_modify_ne e).mp)
+
+theorem wkL_setWake_none {l : List Task} {t : Nat} (f : Task → Task) (h : ∀ k, (f k).wake = none) : wkL (l.modify t f) t = none := by
+  simp only [wkL, List.getElem?_modify]
+  cases l[t]? <;> simp [h]
+
+
+theorem wkL_push (l : List Task) (tk : Task) (h : tk.wake = none) : ∀ u, wkL (l ++ [tk]) u = wkL l u := by
+  intro u
+  simp only [wkL]
+  by_cases lt : u < l.length
+  · rw [List.getElem?_append_left lt]
+  · by_cases e : u = l.length
+    · subst e; simp [h]
+    · have h1 : l.length ≤ u := by omega
+      have h2 : (l ++ [tk]).length ≤ u := by rw [List.length_append, List.length_singleton]; omega
+      rw [List.getElem?_eq_none h2, List.getElem?_eq_none h1]
+
+theorem ptL_push (l : List Task) (tk : Task) : ∀ u, u ≠ l.length → (ptL (l ++ [tk]) u ↔ ptL l u) := by
+  intro u hu
+  simp only [ptL]
+  by_cases lt : u < l.length
+  · rw [List.getElem?_append_left lt]
+  · have h1 : l.length ≤ u := by omega
+    have h2 : (l ++ [tk]).length ≤ u := by rw [List.length_append, List.length_singleton]; omega
+    rw [List.getElem?_eq_none h2, List.getElem?_eq_none h1]
+
+/-- `Again.execute`: the held task blocks (it has no wake time), the new sub-task goes to the front of the ready deque -/
+theorem NEx.spawn {s : St} {t : Nat} (h : NEx [t] s) (hh : Held s t) (hw : wkL s.tasks t = none) (k : Nat) :
+    NEx [] (Pox.Recoco.fastSchedule { s with tasks := s.tasks ++ [{ kind := .sub k t }] } s.tasks.length true) := by
+  have hfresh : s.tasks.length ∉ t :: (s.ready ++ (incTids s ++ hubTids s)) := fun hm => by
+    have := hh.2.live _ hm; rw [stL_fresh] at this; cases this
+  have hnr : s.tasks.length ∉ s.ready := fun hm => hfresh (List.mem_cons_of_mem _ (List.mem_append_left _ hm))
+  unfold Pox.Recoco.fastSchedule
+  rw [if_neg hnr]
+  refine ⟨?_, h.2⟩
+  simp only [ents, if_true]
+  have h0 := (h.blockT hw).1
+  refine (NEA.push (c := s.tasks.length) (rdy' := s.tasks.length :: s.ready)
+    (pt' := ptL (s.tasks ++ [{ kind := .sub k t }])) (st' := stL (s.tasks ++ [{ kind := .sub k t }])) h0 ?_ ?_ ?_ ?_).congr'
+      (wkL_push _ _ rfl) (fun _ => Iff.rfl) (fun _ => rfl)
+  · simp [wkL]
+  · intro u; simp
+  · intro u hu; rw [stL_push]; simp [hu]
+  · intro u hu; exact ptL_push _ _ u hu
+
+/-- tail of `AgainTask.run_again` -/
+theorem NEx.finishSub {s : St} {t k p : Nat} (h : NEx [t] s) (hh : Held s t) (hk : kdL s.tasks t = some (.sub k p)) :
+    NEx [] (finishSub s t p) := by
+  have hp := hh.2.parent t k p hk hh.live
+  have hnr : p ∉ s.ready := fun hm => hp.1 (List.mem_cons_of_mem _ (List.mem_append_left _ hm))
+  have hwp : wkL s.tasks p = none := by
+    refine h.1.blocked p hp.2 (fun hm => hp.1 ?_)
+    rw [ents_tids] at hm
+    simpa using hm
+  have h1 := h.kill hh (x := .done) (by simp)
+  unfold Pox.Recoco.finishSub Pox.Recoco.fastSchedule
+  rw [if_neg (by simpa [setStatus] using hnr)]
+  refine ⟨?_, h1.2⟩
+  simp only [ents, if_true]
+  refine NEA.addReady (t := p) h1.1 (fun u => by simp) ?_
+  intro w fds hw
+  simp only [setStatus, setTask_tasks, wkL_modify_keep, implies_true] at hw
+  rw [hwp] at hw; cases hw
+
+/-- the caller of the held sub-task (blocked, in no queue) gets its `rv` / `re` set -/
+theorem NEx.setParent {s : St} {t k p : Nat} (h : NEx [t] s) (hh : Held s t) (hk : kdL s.tasks t = some (.sub k p))
+    (f : Task → Task) (h1 : ∀ k, (f k).wake = k.wake) (h2 : ∀ k, (f k).st = k.st) : NEx [t] (setTask s p f) := by
+  have hp := hh.2.parent t k p hk hh.live
+  refine ⟨?_, h.2⟩
+  simp only [ents, setTask_incoming, setTask_hub, setTask_ready, setTask_now, setTask_tasks, wkL_modify_keep h1, stL_modify h2]
+  refine h.1.mono (fun _ h' => h') (fun _ h' => h') (fun _ h' => .inl h') (Nat.le_refl _) (fun _ h' => h') ?_
+  intro u hu hpu
+  have : u ≠ p := by
+    rintro rfl
+    apply hp.1
+    simp only [List.mem_append, List.mem_singleton] at hu
+    rcases hu with rfl | hu
+    · exact List.mem_cons_self
+    · exact List.mem_cons_of_mem _ (List.mem_append_left _ hu)
+  exact (ptL_modify_ne this).mp hpu
+
+/-- closes `NEx hd s'` from `h : NEx hd s` when `s'` differs only in fields the invariant does not read -/
+syntax "nex " term : tactic
+macro_rules
+  | `(tactic| nex $h) => `(tactic| (
+      have hh := $h
+      simp only [NEx, ents, setTask_incoming, setTask_hub, setTask_ready, setTask_now, setTask_tasks, setTask_trace, cancelTimer] at hh ⊢
+      exact hh))
+
+theorem NEx.doYield {s : St} {t : Nat} (h : NEx [t] s) (hh : Held s t) (hw : wkL s.tasks t = none) (y : Y) :
+    NEx [] (doYield s t y) := by
+  have rfSet : ∀ (rf : Rf), NEx [t] (setTask s t (fun k => { k with rf := some rf })) ∧ Held (setTask s t (fun k => { k with rf := some rf })) t :=
+    fun rf => ⟨h.modPt _ (fun _ => rfl) (fun _ => rfl) (fun k hp => by simp [plainTimeout] at hp), by held hh⟩
+  have wkSet : ∀ w, (w = 0 ∨ w < s.now) →
+      NEx [] (Pox.Recoco.fastSchedule (setTask s t (fun k => { k with wake := some (w, false) })) t false) := by
+    intro w hwl
+    have h1 : NEx [t] (setTask s t (fun k => { k with wake := some (w, false) })) :=
+      h.setWake hh _ (fun _ => rfl) (fun _ => .inr ⟨w, false, rfl, by omega⟩)
+    unfold Pox.Recoco.fastSchedule
+    rw [if_neg (by simpa using hh.not_ready)]
+    exact h1.toReady false
+  cases y with
+  | num n => cases n with
+    | zero => exact h.toReady false
+    | succ n => exact h.register hh _ _ _ _
+  | block => exact h.blockT hw
+  | sleep d => cases d with
+    | none => exact h.blockT hw
+    | some d =>
+      simp only [Pox.Recoco.doYield]
+      split
+      · exact wkSet _ ‹_›
+      · exact h.register hh _ _ _ _
+  | sleepAbs w =>
+    simp only [Pox.Recoco.doYield]
+    split
+    · exact wkSet _ ‹_›
+    · exact h.register hh _ _ _ _
+  | select r w x to => exact h.register hh _ _ _ _
+  | recv fd to => exact (rfSet _).1.register (rfSet _).2 _ _ _ _
+  | send fd len to bs => exact (rfSet _).1.register (rfSet _).2 _ _ _ _
+  | exit => simp only [Pox.Recoco.doYield]; nex (h.blockT hw)
+  | raise n => exact h.blockT hw
+  | again k c => exact h.spawn hh hw k
+  | cancel j =>
+    have h' : NEx [t] (cancelTimer s j) := by nex h
+    exact h'.toReady false
+
+theorem NEx.topOut {s : St} {t : Nat} (h : NEx [t] s) (hh : Held s t) (hw : wkL s.tasks t = none) (o : Out) :
+    NEx [] (topOut s t o) := by
+  cases o with
+  | stop => exact h.kill hh (by simp)
+  | raise e => exact h.kill hh (by simp)
+  | yield y => exact h.doYield hh hw y
+
+
+theorem NEx.subOut {fx : Bool} {s : St} {t k p : Nat} (h : NEx [t] s) (hh : Held s t) (hw : wkL s.tasks t = none)
+    (hk : kdL s.tasks t = some (.sub k p)) (pc : Nat) (o : Out) : NEx [] (subOut fx s t p pc o) := by
+  have fin : ∀ (f : Task → Task), (∀ k, (f k).wake = k.wake) → (∀ k, (f k).st = k.st) → (∀ k, (f k).kind = k.kind) →
+      NEx [] (Pox.Recoco.finishSub (setTask s p f) t p) := by
+    intro f h1 h2 h3
+    refine NEx.finishSub (k := k) (h.setParent hh hk f h1 h2) ?_ ?_
+    · have := hh; simp only [Held, incTids, hubTids, setTask_running, setTask_ready, setTask_incoming, setTask_hub, setTask_tasks,
+        stL_modify h2, kdL_modify h3] at this ⊢; exact this
+    · rw [setTask_tasks, kdL_modify h3]; exact hk
+  cases o with
+  | raise e => exact fin _ (fun _ => rfl) (fun _ => rfl) (fun _ => rfl)
+  | stop =>
+    simp only [Pox.Recoco.subOut]
+    split
+    · exact fin _ (fun _ => rfl) (fun _ => rfl) (fun _ => rfl)
+    · exact h.finishSub hh hk
+  | yield y =>
+    simp only [Pox.Recoco.subOut]
+    split
+    · exact h.doYield hh hw y
+    · split
+      · exact fin _ (fun _ => rfl) (fun _ => rfl) (fun _ => rfl)
+      · exact fin _ (fun _ => rfl) (fun _ => rfl) (fun _ => rfl)
+      · rename_i j _
+        have h' : NEx [t] (cancelTimer s j) := by nex h
+        have hh' : Held (cancelTimer s j) t := by held hh
+        refine NEx.finishSub (k := k) (s := setTask (cancelTimer s j) p _)
+          (h'.setParent hh' (by simpa [cancelTimer] using hk) _ (fun _ => rfl) (fun _ => rfl)) ?_ ?_
+        · held hh'
+        · simp only [setTask_tasks, kdL_modify, implies_true, cancelTimer]; exact hk
+      · exact h.blockT hw
+
+theorem NEx.timerStep {s : St} {t : Nat} (h : NEx [t] s) (hh : Held s t) (hw : wkL s.tasks t = none) (j pc : Nat) :
+    NEx [] (timerStep s t j pc) := by
+  unfold Pox.Recoco.timerStep
+  split
+  · nex (h.blockT hw)
+  · split
+    · exact h.kill hh (by simp)
+    · split
+      · nex (h.blockT hw)
+      · split
+        · exact h.doYield hh hw _
+        · simp only
+          rename_i tm _ _ _ _
+          have hf : NEx [t] { s with
+              timers := s.timers.modify j (fun m => { m with
+                next := s.now + (if tm.cfg.recurring then tm.cfg.delay else 0), fired := m.fired + 1 }),
+              trace := s.trace ++ [.fire t tm.fired s.now] } := by
+            refine ⟨h.1, ?_⟩
+            intro ev hev
+            rcases List.mem_append.mp hev with h1 | h1
+            · exact h.2 ev h1
+            · simp only [List.mem_singleton] at h1; subst h1; trivial
+          split
+          · nex (hf.blockT hw)
+          · refine NEx.doYield hf ?_ hw _; held hh
+
+/-- what `execPre` leaves of the state when the generator is going to be resumed (or the return function raised) -/
+structure PreFr (s s1 : St) (t : Nat) (tk : Task) : Prop where
+  ents : ents s1 = ents s
+  ready : s1.ready = s.ready
+  now : s1.now = s.now
+  trace : s1.trace = s.trace
+  get : ∀ u, u ≠ t → s1.tasks[u]? = s.tasks[u]?
+  self : ∃ tk1, s1.tasks[t]? = some tk1 ∧ tk1.wake = tk.wake ∧ tk1.st = tk.st ∧ tk1.kind = tk.kind ∧ tk1.pc = tk.pc
+
+theorem getElem?_modify_ne' {l : List Task} {t u : Nat} {f : Task → Task} (h : u ≠ t) : (l.modify t f)[u]? = l[u]? := by
+  simp only [List.getElem?_modify]
+  have : ¬ t = u := fun e => h e.symm
+  cases l[u]? <;> simp [this]
+
+theorem PreFr.setSelf {s : St} {t : Nat} {tk : Task} (ht : s.tasks[t]? = some tk) (f : Task → Task)
+    (h1 : (f tk).wake = tk.wake) (h2 : (f tk).st = tk.st) (h3 : (f tk).kind = tk.kind) (h4 : (f tk).pc = tk.pc) :
+    PreFr s (setTask s t f) t tk :=
+  ⟨rfl, rfl, rfl, rfl, fun u hu => getElem?_modify_ne' hu, ⟨f tk, by simp [List.getElem?_modify, ht], h1, h2, h3, h4⟩⟩
+
+def PreNE (s : St) (t : Nat) (tk : Task) : ExecPre × St → Prop
+  | (.abort, s1) => NEx [] s1
+  | (.raised _, s1) => NEx [t] s1
+  | (.resume r, s1) => PreFr s s1 t tk ∧ (r = .val timeoutVal → plainTimeout tk)
+
+theorem NEx.execPre (cfg : Cfg) {s : St} {t : Nat} {tk : Task} (h : NEx [t] s) (hh : Held s t) (ht : s.tasks[t]? = some tk) :
+    PreNE s t tk (execPre cfg s t tk) := by
+  have frS : ∀ (f : Task → Task) (x : List (Option Nat)), (f tk).wake = tk.wake → (f tk).st = tk.st → (f tk).kind = tk.kind →
+      (f tk).pc = tk.pc → PreFr s (setTask { s with sendScript := x } t f) t tk := by
+    intro f x h1 h2 h3 h4
+    exact ⟨rfl, rfl, rfl, rfl, fun u hu => getElem?_modify_ne' hu, ⟨f tk, by simp [List.getElem?_modify, ht], h1, h2, h3, h4⟩⟩
+  have frR : ∀ (f : Task → Task) (x : List (Option Nat)), (f tk).wake = tk.wake → (f tk).st = tk.st → (f tk).kind = tk.kind →
+      (f tk).pc = tk.pc → PreFr s ({ setTask s t f with recvScript := x }) t tk := by
+    intro f x h1 h2 h3 h4
+    exact ⟨rfl, rfl, rfl, rfl, fun u hu => getElem?_modify_ne' hu, ⟨f tk, by simp [List.getElem?_modify, ht], h1, h2, h3, h4⟩⟩
+  unfold Pox.Recoco.execPre
+  simp only []
+  split
+  · -- Recv
+    split
+    · split
+      · exact ⟨PreFr.setSelf ht _ rfl rfl rfl rfl, fun hr => by simp [timeoutVal] at hr⟩
+      · refine ⟨frR _ _ rfl rfl rfl rfl, fun hr => ?_⟩
+        simp only [Recv.val.injEq, recvValue] at hr
+        split at hr <;> simp [timeoutVal] at hr
+    · exact h
+  · -- Send
+    split
+    · split
+      · exact ⟨PreFr.setSelf ht _ rfl rfl rfl rfl, fun hr => by simp [timeoutVal] at hr⟩
+      · split
+        · split
+          · show NEx [] _
+            refine NEx.register (s := { s with sendScript := _ }) ?_ ?_ _ _ _ _
+            · nex h
+            · held hh
+          · show NEx [t] _
+            nex h
+        · split
+          · exact ⟨frS _ _ rfl rfl rfl rfl, fun hr => by simp [timeoutVal] at hr⟩
+          · show NEx [] _
+            refine NEx.register (NEx.modPt (s := { s with sendScript := _ }) ?_ _ ?_ ?_ ?_) ?_ _ _ _ _
+            · nex h
+            · intro _; rfl
+            · intro _; rfl
+            · intro k hp; simp [plainTimeout] at hp
+            · held hh
+    · exact h
+  · split
+    · rename_i e he
+      exact ⟨PreFr.setSelf ht _ rfl rfl rfl rfl, fun hr => by cases hr⟩
+    · refine ⟨PreFr.setSelf ht _ rfl rfl rfl rfl, fun hr => ?_⟩
+      simp only [Recv.val.injEq] at hr
+      exact ⟨by assumption, by assumption, hr⟩
+
+
+theorem wkL_of_get {l l' : List Task} {u : Nat} (h : l'[u]? = l[u]?) : wkL l' u = wkL l u := by simp [wkL, h]
+theorem ptL_of_get {l l' : List Task} {u : Nat} (h : l'[u]? = l[u]?) : ptL l' u ↔ ptL l u := by simp [ptL, h]
+theorem stL_of_get {l l' : List Task} {u : Nat} (h : l'[u]? = l[u]?) : stL l' u = stL l u := by simp [stL, h]
+
+/-- the generator of the held task is about to be resumed: its wake time is cleared (and recorded in the trace event) -/
+theorem NEx.resume {s s1 : St} {t : Nat} {tk : Task} (h : NEx [t] s) (hh : Held s t) (hf : PreFr s s1 t tk)
+    (f : Task → Task) (hfw : ∀ k, (f k).wake = none) : NEx [t] (setTask s1 t f) := by
+  have hget : ∀ u, u ≠ t → (s1.tasks.modify t f)[u]? = s.tasks[u]? := fun u hu => by
+    rw [getElem?_modify_ne' hu]; exact hf.get u hu
+  have hwt : wkL (s1.tasks.modify t f) t = none := wkL_setWake_none f hfw
+  have hne := hh.not_ents
+  refine ⟨?_, by simpa [hf.trace] using h.2⟩
+  simp only [setTask_incoming, setTask_hub, setTask_ready, setTask_now, setTask_tasks]
+  have e1 : Pox.Recoco.ents (setTask s1 t f) = Pox.Recoco.ents s := hf.ents
+  rw [e1, hf.ready, hf.now]
+  refine ⟨?_, ?_, ?_⟩
+  · intro e he
+    have : e.tid ≠ t := fun e' => hne (e' ▸ List.mem_map_of_mem he)
+    rw [wkL_of_get (hget _ this)]; exact h.1.entry e he
+  · intro u hu w fds hw hc
+    by_cases e : u = t
+    · subst e; rw [hwt] at hw; cases hw
+    · rw [wkL_of_get (hget u e)] at hw
+      exact h.1.ready u hu w fds hw (hc.imp id (ptL_of_get (hget u e)).mp)
+  · intro u hl hnp
+    by_cases e : u = t
+    · subst e; exact absurd (List.mem_append_left _ List.mem_cons_self) hnp
+    · rw [wkL_of_get (hget u e)]
+      rw [stL_of_get (hget u e)] at hl
+      exact h.1.blocked u hl hnp
+
+theorem NEx.resumeGen (cfg : Cfg) {s : St} {t : Nat} {tk : Task} (r : Recv)
+    (h : NEx [t] (setTask s t (fun k => { k with pc := k.pc + 1, wake := none })))
+    (hev : evOK (.step t tk.pc s.now r tk.wake)) (hh : Held s t) (ht : s.tasks[t]? = some tk) :
+    NEx [] (resumeGen cfg s t tk r) := by
+  have h0 : NEx [t] { setTask s t (fun k => { k with pc := k.pc + 1, wake := none }) with
+                   trace := s.trace ++ [.step t tk.pc s.now r tk.wake] } := by
+    refine ⟨h.1, ?_⟩
+    intro ev hev'
+    rcases List.mem_append.mp hev' with h1 | h1
+    · exact h.2 ev h1
+    · simp only [List.mem_singleton] at h1; subst h1; exact hev
+  have hh0 : Held { setTask s t (fun k => { k with pc := k.pc + 1, wake := none }) with
+                   trace := s.trace ++ [.step t tk.pc s.now r tk.wake] } t := by held hh
+  have hw0 : wkL ({ setTask s t (fun k => { k with pc := k.pc + 1, wake := none }) with
+                   trace := s.trace ++ [.step t tk.pc s.now r tk.wake] } : St).tasks t = none :=
+    wkL_setWake_none _ (fun _ => rfl)
+  have hk0 := kdL_of_get ht
+  unfold Pox.Recoco.resumeGen
+  simp only
+  split
+  · split
+    · nex (h0.blockT hw0)
+    · exact h0.topOut hh0 hw0 _
+  · rename_i k p hkind
+    have hk1 : kdL s.tasks t = some (.sub k p) := by rw [hk0, hkind]
+    have hk2 : kdL ({ setTask s t (fun k => { k with pc := k.pc + 1, wake := none }) with
+                   trace := s.trace ++ [.step t tk.pc s.now r tk.wake] } : St).tasks t = some (.sub k p) := by
+      simp only [setTask_tasks, kdL_modify, implies_true]; exact hk1
+    split
+    · nex (h0.blockT hw0)
+    · split
+      · refine NEx.subOut (k := k) (s := setTask _ p _) (h0.setParent hh0 hk2 _ ?_ ?_) ?_ ?_ ?_ _ _
+        · intro _; rfl
+        · intro _; rfl
+        · held hh0
+        · simp only [setTask_tasks, wkL_modify_keep, implies_true]; exact hw0
+        · simp only [setTask_tasks, kdL_modify, implies_true]; exact hk1
+      · exact h0.subOut hh0 hw0 hk2 _ _
+  · exact h0.timerStep hh0 hw0 _ _
+
+
+/-! ### the running slot is empty between cycles -/
+
+@[simp] theorem fastSchedule_running (s : St) (t : Nat) (f : Bool) : (fastSchedule s t f).running = s.running := by
+  unfold fastSchedule; split <;> rfl
+@[simp] theorem registerSelect_running (s : St) (t : Nat) (a b c : List Nat) (d : Option Nat) :
+    (registerSelect s t a b c d).running = s.running := rfl
+@[simp] theorem setStatus_running (s : St) (t : Nat) (x : Status) : (setStatus s t x).running = s.running := rfl
+@[simp] theorem finishSub_running (s : St) (t p : Nat) : (finishSub s t p).running = s.running := by simp [finishSub]
+@[simp] theorem cancelTimer_running (s : St) (j : Nat) : (cancelTimer s j).running = s.running := rfl
+
+@[simp] theorem doYield_running (s : St) (t : Nat) (y : Y) : (doYield s t y).running = s.running := by
+  cases y with
+  | num n => cases n <;> simp [doYield]
+  | sleep d => cases d with
+    | none => rfl
+    | some d => simp only [doYield]; split <;> simp
+  | sleepAbs w => simp only [doYield]; split <;> simp
+  | _ => simp [doYield]
+
+@[simp] theorem topOut_running (s : St) (t : Nat) (o : Out) : (topOut s t o).running = s.running := by
+  cases o <;> simp [topOut]
+
+@[simp] theorem subOut_running (fx : Bool) (s : St) (t p pc : Nat) (o : Out) : (subOut fx s t p pc o).running = s.running := by
+  cases o with
+  | raise e => simp [subOut]
+  | stop => simp only [subOut]; split <;> simp
+  | yield y =>
+    simp only [subOut]
+    split
+    · simp
+    · split <;> simp
+
+@[simp] theorem timerStep_running (s : St) (t j pc : Nat) : (timerStep s t j pc).running = s.running := by
+  unfold timerStep
+  repeat' split
+  all_goals first
+    | (simp; done)
+    | (simp only []; split <;> simp)
+
+@[simp] theorem resumeGen_running (cfg : Cfg) (s : St) (t : Nat) (tk : Task) (r : Recv) :
+    (resumeGen cfg s t tk r).running = s.running := by
+  unfold resumeGen
+  simp only
+  repeat' split
+  all_goals simp
+
+theorem execPre_running (cfg : Cfg) (s : St) (t : Nat) (tk : Task) : (execPre cfg s t tk).2.running = s.running := by
+  unfold execPre
+  simp only []
+  repeat' split
+  all_goals simp
+
+theorem cycleExec_running (cfg : Cfg) (s : St) : (cycleExec cfg s).running = none := by
+  unfold cycleExec
+  split
+  · assumption
+  · rename_i t _
+    simp only
+    split
+    · rfl
+    · rename_i tk _
+      have := execPre_running cfg { s with running := none } t tk
+      split
+      · rename_i he; rw [he] at this; exact this
+      · rename_i he; rw [he] at this; simpa using this
+      · rename_i he; rw [he] at this
+        split
+        · exact this
+        · simpa using this
+
+/-! ### assembling -/
+
+/-- between cycles: nobody is running and every pending timed wait is accounted for -/
+def NE (s : St) : Prop := s.running = none ∧ NEx [] s
+
+theorem NE.cycle (cfg : Cfg) {s : St} (hi : Inv s) (h : NE s) : NE (cycle cfg s) := by
+  refine ⟨by unfold Pox.Recoco.cycle; exact cycleExec_running _ _, ?_⟩
+  unfold Pox.Recoco.cycle cyclePop
+  simp only [h.1]
+  split
+  · -- a task is popped and executed
+    rename_i t rest _ hrd
+    have hi' : Inv { s with cycles := s.cycles + 1, running := some t, ready := rest } := by
+      have := hi
+      simp only [Inv, places, h.1, hrd, incTids, hubTids, Option.toList, List.nil_append, List.cons_append] at this ⊢
+      exact this
+    have hh : Held { s with cycles := s.cycles + 1, running := none, ready := rest } t := by
+      refine ⟨rfl, ?_⟩
+      have := hi
+      simp only [Inv, places, h.1, hrd, incTids, hubTids, Option.toList, List.nil_append, List.cons_append] at this ⊢
+      exact this
+    have hx : NEx [t] { s with cycles := s.cycles + 1, running := none, ready := rest } := by
+      have := h.2
+      simp only [NEx, ents, hrd] at this ⊢
+      exact ⟨this.1.mono (fun _ h' => h') (fun u hu => by simpa using hu) (fun u hu => .inl (by simpa using hu))
+        (Nat.le_refl _) (fun _ h' => h') (fun _ _ h' => h'), this.2⟩
+    unfold Pox.Recoco.cycleExec
+    simp only
+    split
+    · nex (hx.blockT (by rename_i hn; simp [wkL]; simp at hn; simp [hn]))
+    · rename_i tk htk
+      have htk' : s.tasks[t]? = some tk := htk
+      have hp := hx.execPre cfg hh htk'
+      have hpo := hh.execPre cfg tk
+      split
+      · rename_i s1 he; rw [he] at hp; exact hp
+      · rename_i e s1 he; rw [he] at hp hpo; exact NEx.kill hp hpo (by simp)
+      · rename_i r s1 he; rw [he] at hp hpo
+        obtain ⟨hf, hto⟩ := hp
+        obtain ⟨tk1, htk1, hw1, _⟩ := hf.self
+        split
+        · rename_i hn; rw [htk1] at hn; cases hn
+        · rename_i tk1' htk1'
+          rw [htk1] at htk1'; cases htk1'
+          refine NEx.resumeGen cfg r (hx.resume hh hf _ (fun _ => rfl)) ?_ hpo htk1
+          -- the recorded event is not early
+          rw [hw1, hf.now]
+          cases hwk : tk.wake with
+          | none => trivial
+          | some wf =>
+            obtain ⟨w, fds⟩ := wf
+            intro hc
+            refine hx.1.ready t (List.mem_append_left _ List.mem_cons_self) w fds (by simp [wkL, htk', hwk]) (hc.imp id ?_)
+            intro hr
+            exact ⟨tk, htk', hto hr⟩
+  · -- nothing to pop
+    rename_i hnp
+    unfold Pox.Recoco.cycleExec
+    simp only [h.1]
+    nex h.2
+
+
+theorem NE.idleStep (cfg : Cfg) {s : St} (hi : Inv s) (h : NE s) : NE (idleStep cfg s) :=
+  ⟨(HubFr.idleStep cfg s).running.trans h.1, h.2.idleStep cfg hi⟩
+
+theorem NE.iter (cfg : Cfg) {s : St} (hi : Inv s) (h : NE s) : NE (iter cfg s) := by
+  unfold Pox.Recoco.iter
+  have h1 := h.idleStep cfg hi
+  have hi1 := hi.idleStep cfg
+  split
+  · exact h
+  · simp only []
+    split
+    · exact h1
+    · exact h1.cycle cfg hi1
+
+theorem NE.run (cfg : Cfg) : ∀ (n : Nat) {s : St}, Inv s → NE s → NE (run cfg n s)
+  | 0, _, _, h => h
+  | n + 1, _, hi, h => NE.run cfg n (hi.iter cfg) (h.iter cfg hi)
+
+theorem NE.init (t0 : Nat) (tasks : List Nat) (timers : List TimerCfg) (ss rs : List (Option Nat)) :
+    NE (initSt t0 tasks timers ss rs) := by
+  have hwk : ∀ t, wkL (initSt t0 tasks timers ss rs).tasks t = none := by
+    intro t
+    simp only [wkL, initSt, List.getElem?_append, List.length_map, List.getElem?_map]
+    split
+    · cases tasks[t]? <;> simp
+    · cases (List.range timers.length)[t - tasks.length]? <;> simp
+  refine ⟨rfl, ⟨?_, ?_, ?_⟩, ?_⟩
+  · intro e he; simp [ents, initSt] at he
+  · intro t _ w fds hw; rw [hwk] at hw; cases hw
+  · intro t _ _; exact hwk t
+  · intro ev hev; simp [initSt] at hev
+
+/-! ## Part 4: one-cycle theorems (isolation, sub-task return, delivery) -/
+
+/-- a top-level task whose step raises: it is descheduled, nothing else changes -/
+theorem isolation_step (cfg : Cfg) (s : St) (t : Nat) (rest : List Nat) (tk : Task) (k : Nat) (prog : List Y) (e : Exc)
+    (hrun : s.running = none) (hrd : s.ready = t :: rest) (htk : s.tasks[t]? = some tk)
+    (hkind : tk.kind = .top k) (hprog : cfg.progs[k]? = some prog) (hrf : tk.rf = none) (hre : tk.re = none)
+    (hraise : genStep s.timers.length prog tk.pc (.val tk.rv) = .raise e) :
+    let s' := cycle cfg s
+    s'.ready = rest ∧ s'.running = none ∧ s'.incoming = s.incoming ∧ s'.hub = s.hub ∧ s'.now = s.now ∧
+    s'.hasQuit = s.hasQuit ∧ s'.timers = s.timers ∧
+    (∀ u, u ≠ t → s'.tasks[u]? = s.tasks[u]?) ∧ stL s'.tasks t = some .dead ∧
+    s'.trace = s.trace ++ [.step t tk.pc s.now (.val tk.rv) tk.wake] := by
+  simp only [cycle, cyclePop, hrun, hrd, cycleExec, htk, execPre, hrf, hre]
+  simp [List.getElem?_modify, htk, resumeGen, hkind, hprog, hraise, topOut, setStatus, stL]
+  intro u hu
+  have : ¬ t = u := fun e => hu e.symm
+  cases s.tasks[u]? <;> simp [this]
+
+
+theorem genStep_ne_yield_raise (n : Nat) (prog : List Y) (pc : Nat) (r : Recv) (m : Nat) :
+    genStep n prog pc r ≠ .yield (.raise m) := by
+  unfold genStep
+  have key : (match prog[pc]? with
+      | none => Out.stop
+      | some (.raise n) => .raise (.user n)
+      | some (.cancel j) => if j < n then .yield (.cancel j) else .raise .indexError
+      | some y => .yield y) ≠ .yield (.raise m) := by
+    cases hp : prog[pc]? with
+    | none => simp
+    | some y => cases y <;> simp <;> split <;> simp
+  split
+  · simp
+  · exact key
+
+/-- what `AgainTask.run_again` writes into its caller when the wrapped generator produced the final outcome `o` -/
+def deliver (fx : Bool) (o : Out) (pc : Nat) (ptk : Task) : Task :=
+  match o with
+  | .raise e => { ptk with re := some e }
+  | .stop => if pc = 0 ∧ fx = false then { ptk with re := some .stopIteration } else ptk
+  | .yield (.num n) => { ptk with rv := .num n }
+  | .yield .block => { ptk with rv := .fals }
+  | .yield (.cancel _) => { ptk with rv := .num 0 }
+  | .yield _ => ptk
+
+/-- the sub-task's generator is finished after `o` (it raised, returned, or yielded a plain value = "return") -/
+def Out.final : Out → Bool
+  | .yield y => !y.isBlocking
+  | _ => true
+
+theorem again_return_step (cfg : Cfg) (s : St) (c p k : Nat) (rest : List Nat) (tk ptk : Task) (prog : List Y)
+    (hrun : s.running = none) (hrd : s.ready = c :: rest) (htk : s.tasks[c]? = some tk)
+    (hkind : tk.kind = .sub k p) (hprog : cfg.progs[k]? = some prog) (hrf : tk.rf = none) (hre : tk.re = none)
+    (hp : s.tasks[p]? = some ptk) (hpc : p ≠ c) (hnr : p ∉ rest)
+    (hfin : (genStep s.timers.length prog tk.pc (.val tk.rv)).final = true) :
+    let s' := cycle cfg s
+    let o := genStep s.timers.length prog tk.pc (.val tk.rv)
+    s'.ready = p :: rest ∧ s'.running = none ∧ s'.incoming = s.incoming ∧ s'.hub = s.hub ∧ s'.now = s.now ∧
+    s'.tasks[p]? = some (deliver cfg.fixEmptySub o tk.pc (if tk.pc = 0 then { ptk with rv := .none } else ptk)) ∧
+    (∀ u, u ≠ c → u ≠ p → s'.tasks[u]? = s.tasks[u]?) ∧ stL s'.tasks c = some .done := by
+  have hcp : ¬ c = p := fun e => hpc e.symm
+  obtain ⟨kind, pc, rv, re, rf, st, wake⟩ := tk
+  simp only at hkind hrf hre hfin ⊢
+  subst hkind hrf hre
+  have fin : ∀ (pc : Nat) (htk : s.tasks[c]? = some { kind := Kind.sub k p, pc := pc, rv := rv, st := st, wake := wake })
+      (o : Out), genStep s.timers.length prog pc (Recv.val rv) = o → o.final = true →
+      (let s' := cycle cfg s
+       s'.ready = p :: rest ∧ s'.running = none ∧ s'.incoming = s.incoming ∧ s'.hub = s.hub ∧ s'.now = s.now ∧
+       s'.tasks[p]? = some (deliver cfg.fixEmptySub o pc (if pc = 0 then { ptk with rv := .none } else ptk)) ∧
+       (∀ u, u ≠ c → u ≠ p → s'.tasks[u]? = s.tasks[u]?) ∧ stL s'.tasks c = some .done) := by
+    intro pc htk o hgo hfin
+    have tail : ∀ (u : Nat) (f1 f2 f3 f4 f5 : Task → Task), u ≠ c → u ≠ p →
+        (((((s.tasks.modify c f1).modify c f2).modify p f3).modify p f4).modify c f5)[u]? = s.tasks[u]? := by
+      intro u f1 f2 f3 f4 f5 h1 h2
+      rw [getElem?_modify_ne' h1, getElem?_modify_ne' h2, getElem?_modify_ne' h2, getElem?_modify_ne' h1, getElem?_modify_ne' h1]
+    have tail' : ∀ (u : Nat) (f1 f2 f4 f5 : Task → Task), u ≠ c → u ≠ p →
+        ((((s.tasks.modify c f1).modify c f2).modify p f4).modify c f5)[u]? = s.tasks[u]? := by
+      intro u f1 f2 f4 f5 h1 h2
+      rw [getElem?_modify_ne' h1, getElem?_modify_ne' h2, getElem?_modify_ne' h1, getElem?_modify_ne' h1]
+    have tail'' : ∀ (u : Nat) (f1 f2 f5 : Task → Task), u ≠ c → u ≠ p →
+        (((s.tasks.modify c f1).modify c f2).modify c f5)[u]? = s.tasks[u]? := by
+      intro u f1 f2 f5 h1 h2
+      rw [getElem?_modify_ne' h1, getElem?_modify_ne' h1, getElem?_modify_ne' h1]
+    simp only [cycle, cyclePop, hrun, hrd, cycleExec, htk, execPre]
+    simp only [setTask_tasks, List.getElem?_modify, htk, if_true, Option.map_eq_map, Option.map_some, resumeGen, hprog,
+      setTask_timers, hgo]
+    rcases Nat.eq_zero_or_pos pc with rfl | hpos
+    · cases o with
+      | raise e =>
+        simp [hgo, subOut, finishSub, fastSchedule, setStatus, hnr, deliver, stL, List.getElem?_modify, hp, hpc, hcp, htk]
+        intro u h1 h2
+        have e1 : ¬ c = u := fun e => h1 e.symm
+        have e2 : ¬ p = u := fun e => h2 e.symm
+        cases s.tasks[u]? <;> simp [e1, e2]
+      | stop =>
+        cases hfx : cfg.fixEmptySub
+        all_goals
+          simp [hgo, hfx, subOut, finishSub, fastSchedule, setStatus, hnr, deliver, stL, List.getElem?_modify, hp, hpc, hcp, htk]
+          intro u h1 h2
+          have e1 : ¬ c = u := fun e => h1 e.symm
+          have e2 : ¬ p = u := fun e => h2 e.symm
+          cases s.tasks[u]? <;> simp [e1, e2]
+      | yield y =>
+        cases y <;> simp [Out.final, Y.isBlocking] at hfin
+        case raise m => exact absurd hgo (genStep_ne_yield_raise _ _ _ _ _)
+        all_goals
+          simp [hgo, subOut, Y.isBlocking, finishSub, fastSchedule, setStatus, hnr, deliver, stL, List.getElem?_modify, hp, hpc, hcp, htk,
+            cancelTimer]
+          intro u h1 h2
+          have e1 : ¬ c = u := fun e => h1 e.symm
+          have e2 : ¬ p = u := fun e => h2 e.symm
+          cases s.tasks[u]? <;> simp [e1, e2]
+    · have hne : pc ≠ 0 := by omega
+      cases o with
+      | raise e =>
+        simp [hgo, hne, subOut, finishSub, fastSchedule, setStatus, hnr, deliver, stL, List.getElem?_modify, hp, hpc, hcp, htk]
+        intro u h1 h2
+        have e1 : ¬ c = u := fun e => h1 e.symm
+        have e2 : ¬ p = u := fun e => h2 e.symm
+        cases s.tasks[u]? <;> simp [e1, e2]
+      | stop =>
+        simp [hgo, hne, subOut, finishSub, fastSchedule, setStatus, hnr, deliver, stL, List.getElem?_modify, hp, hpc, hcp, htk]
+        intro u h1 h2
+        have e1 : ¬ c = u := fun e => h1 e.symm
+        have e2 : ¬ p = u := fun e => h2 e.symm
+        cases s.tasks[u]? <;> simp [e1, e2]
+      | yield y =>
+        cases y <;> simp [Out.final, Y.isBlocking] at hfin
+        case raise m => exact absurd hgo (genStep_ne_yield_raise _ _ _ _ _)
+        all_goals
+          simp [hgo, hne, subOut, Y.isBlocking, finishSub, fastSchedule, setStatus, hnr, deliver, stL, List.getElem?_modify, hp, hpc, hcp, htk,
+            cancelTimer]
+          intro u h1 h2
+          have e1 : ¬ c = u := fun e => h1 e.symm
+          have e2 : ¬ p = u := fun e => h2 e.symm
+          cases s.tasks[u]? <;> simp [e1, e2]
+  exact fin pc htk _ rfl hfin
+
+
+@[simp] theorem fastSchedule_trace (s : St) (t : Nat) (f : Bool) : (fastSchedule s t f).trace = s.trace := by
+  unfold fastSchedule; split <;> rfl
+@[simp] theorem registerSelect_trace (s : St) (t : Nat) (a b c : List Nat) (d : Option Nat) :
+    (registerSelect s t a b c d).trace = s.trace := rfl
+@[simp] theorem setStatus_trace (s : St) (t : Nat) (x : Status) : (setStatus s t x).trace = s.trace := rfl
+@[simp] theorem finishSub_trace (s : St) (t p : Nat) : (finishSub s t p).trace = s.trace := by simp [finishSub]
+@[simp] theorem cancelTimer_trace (s : St) (j : Nat) : (cancelTimer s j).trace = s.trace := rfl
+
+@[simp] theorem doYield_trace (s : St) (t : Nat) (y : Y) : (doYield s t y).trace = s.trace := by
+  cases y with
+  | num n => cases n <;> simp [doYield]
+  | sleep d => cases d with
+    | none => rfl
+    | some d => simp only [doYield]; split <;> simp
+  | sleepAbs w => simp only [doYield]; split <;> simp
+  | _ => simp [doYield]
+
+@[simp] theorem topOut_trace (s : St) (t : Nat) (o : Out) : (topOut s t o).trace = s.trace := by
+  cases o <;> simp [topOut]
+
+@[simp] theorem subOut_trace (fx : Bool) (s : St) (t p pc : Nat) (o : Out) : (subOut fx s t p pc o).trace = s.trace := by
+  cases o with
+  | raise e => simp [subOut]
+  | stop => simp only [subOut]; split <;> simp
+  | yield y =>
+    simp only [subOut]
+    split
+    · simp
+    · split <;> simp
+
+/-- what the generator at the head of the ready deque is sent: its own pending exception, else its own pending value -/
+def pendingRecv (tk : Task) : Recv :=
+  match tk.re with
+  | some e => .exc e
+  | none => .val tk.rv
+
+/-- one cycle resumes exactly the task at the head of the ready deque, once, with exactly what is pending for it -/
+theorem resume_receives (cfg : Cfg) (s : St) (t : Nat) (rest : List Nat) (tk : Task) (prog : List Y)
+    (hrun : s.running = none) (hrd : s.ready = t :: rest) (htk : s.tasks[t]? = some tk) (hrf : tk.rf = none)
+    (hprog : progOf cfg tk.kind = some prog) :
+    (cycle cfg s).trace = s.trace ++ [.step t tk.pc s.now (pendingRecv tk) tk.wake] := by
+  obtain ⟨kind, pc, rv, re, rf, st, wake⟩ := tk
+  simp only at hrf hprog ⊢
+  subst hrf
+  simp only [cycle, cyclePop, hrun, hrd, cycleExec, htk, execPre, pendingRecv]
+  cases re with
+  | none =>
+    cases kind with
+    | top k =>
+      simp only [progOf] at hprog
+      simp [List.getElem?_modify, htk, resumeGen, hprog]
+    | sub k p =>
+      simp only [progOf] at hprog
+      simp [List.getElem?_modify, htk, resumeGen, hprog]
+      split <;> rfl
+    | timer j => simp [progOf] at hprog
+  | some e =>
+    cases kind with
+    | top k =>
+      simp only [progOf] at hprog
+      simp [List.getElem?_modify, htk, resumeGen, hprog]
+    | sub k p =>
+      simp only [progOf] at hprog
+      simp [List.getElem?_modify, htk, resumeGen, hprog]
+      split <;> rfl
+    | timer j => simp [progOf] at hprog
 
 end Pox.Recoco
